@@ -2,6 +2,32 @@
 
 package ristretto
 
-import sync "verif/shim/vsync"
+import (
+	"reflect"
 
-func verifPoolItems(p *sync.Pool) []any { return p.Items() }
+	sync "verif/shim/vsync"
+)
+
+// verifPoolItemsOf returns the items of the first sync.Pool found in the struct v (by value or
+// behind a pointer): the ring buffer's stripe pool.
+func verifPoolItemsOf(v reflect.Value) []any {
+	for v.IsValid() && (v.Kind() == reflect.Pointer || v.Kind() == reflect.Interface) {
+		if v.IsNil() {
+			return nil
+		}
+		v = v.Elem()
+	}
+	if !v.IsValid() || v.Kind() != reflect.Struct {
+		return nil
+	}
+	for i := 0; i < v.NumField(); i++ {
+		f := v.Field(i)
+		if f.Kind() == reflect.Pointer && !f.IsNil() && f.Type().Elem() == reflect.TypeOf(sync.Pool{}) {
+			return (*sync.Pool)(f.UnsafePointer()).Items()
+		}
+		if f.Kind() == reflect.Struct && f.Type() == reflect.TypeOf(sync.Pool{}) && f.CanAddr() {
+			return (*sync.Pool)(f.Addr().UnsafePointer()).Items()
+		}
+	}
+	return nil
+}
